@@ -349,8 +349,15 @@ def r8_typepath_ctor(chk):
         key = f"TypePath::from[last segment {'with' if angle else 'without'} <..>]"
         path, gens, pstr = f_.get("path", ""), f_.get("generics", ""), f_.get("path_str", "")
         whole = path == "«‹value›»"
+        # the segment that is TESTED for <..>, CLEARED and READ must be the last one
+        seg_atoms = [a for a in lf.decisions if "AngleBracketed" in a] + [str(e[1]) for e in lf.effects if e[0] == "assign" and str(e[1]).endswith(".arguments")] + ([gens] if gens.startswith("Some(") else [])
+        wrong_seg = [a for a in seg_atoms if re.search(r"segments\.(first|first_mut)\(\)|segments\[0\]|segments\.iter\(\)\.next\(\)", a)]
         projected = bool(re.search(r"value\.segments|\.ident|\.first\(|\.last\(", path))
         cleared = any(e[0] == "assign" and e[1].endswith(".arguments") and "None" in str(e[2]) for e in lf.effects if len(e) >= 3)
+        if wrong_seg:
+            chk.bad("R8", key, ATTR, fi.line, "generic arguments are looked for / cleared / read on a segment other than the last one (a qualified generic path keeps its <..> in .path, or loses them)",
+                    expected="segments.last() / last_mut()", found=wrong_seg[:3])
+            continue
         if angle:
             good = whole and cleared and gens.startswith("Some(") and "AngleBracketed" in gens and pstr == "str(‹value›)"
             bad = projected or (whole and not cleared) or gens == "None" or (pstr != "str(‹value›)" and "value.segments" in pstr)
